@@ -1451,7 +1451,7 @@ def responses_gen(run):
     def overlapping(w):       # some response is served, or an event arises, while another response is still in flight
         out = set()
         for s in w:
-            if s['a'] == 'Event':
+            if s['a'] in ('Event', 'KeepAlive'):
                 if out:
                     return True
             elif s['a'] == 'Send':
@@ -1481,7 +1481,10 @@ def responses_gen(run):
     a2 = run.generate('ResponsesGen', cfgtext='CONSTANTS\n  Ctrl = {"c1", "c2"}\n  Weak = {"notifications_wait_for_response"}\n  MaxLen = 6\n' + t + 'INVARIANT NoAttack\nVIEW AttackView\nCHECK_DEADLOCK FALSE\n', expect_violation=True)
     if not a2:
         raise ToolTrouble('no attack word for guard notifications_wait_for_response')
-    return [('word', words), ('attack:buffer_owned_until_written', [aw]), ('attack:notifications_wait_for_response', [complete(a2[0])])], dict(words_enumerated=nall, words_with_overlap=nover, words_replayed=len(words), word_len=6, attack_words=1)
+    a3 = run.generate('ResponsesGen', cfgtext='CONSTANTS\n  Ctrl = {"c1", "c2"}\n  Weak = {"keepalives_wait_for_response"}\n  MaxLen = 6\n' + t + 'INVARIANT NoAttack\nVIEW AttackView\nCHECK_DEADLOCK FALSE\n', expect_violation=True)
+    if not a3:
+        raise ToolTrouble('no attack word for guard keepalives_wait_for_response')
+    return [('word', words), ('attack:buffer_owned_until_written', [aw]), ('attack:notifications_wait_for_response', [complete(a2[0])]), ('attack:keepalives_wait_for_response', [complete(a3[0])])], dict(words_enumerated=nall, words_with_overlap=nover, words_replayed=len(words), word_len=6, attack_words=1)
 
 
 def responses_family(run, replay=None):
